@@ -958,3 +958,102 @@ pub fn run_cells(cfg: &Cfg, cells: Vec<CellDef>, extra: Extra, rep: Report) -> i
     }
     exit
 }
+
+// ------------------------------------------------------------------------------------------------
+// monotone interval cache
+// ------------------------------------------------------------------------------------------------
+
+/// For a reference function that is *monotone* in the posit order of its 32-bit argument (every correctly rounded
+/// conversion and every integer-valued rounding function is), the inputs sharing one result form an interval of
+/// bit patterns (patterns of one sign ascend with the value). A complete ascending sweep therefore needs the
+/// reference only at interval ends: on a miss the reference is evaluated at x and the end of the interval is found
+/// by galloping + bisection on the reference itself; all members in between are compared with the cached result.
+/// Soundness rests on the monotonicity of the *reference* only (a mathematical property of rounding), never on
+/// the code under test. Returns (reference value, whether the interval has more than one member).
+pub mod mono {
+    use std::cell::RefCell;
+    #[derive(Clone, Copy)]
+    struct Ent {
+        id: u64,
+        lo: u32,
+        hi: u32,
+        val: u128,
+        singles: u32,
+        skip: u32,
+    }
+    thread_local! {
+        static CACHE: RefCell<Ent> = const { RefCell::new(Ent { id: 0, lo: 1, hi: 0, val: 0, singles: 0, skip: 0 }) };
+    }
+
+    pub fn lookup(id: u64, x: u32, oracle: &dyn Fn(u32) -> u128) -> (u128, bool) {
+        if x == 0 || x == 0x8000_0000 {
+            return (oracle(x), true);
+        }
+        CACHE.with(|c| {
+            let mut e = c.borrow_mut();
+            if e.id == id && e.lo <= x && x <= e.hi {
+                return (e.val, e.hi > e.lo);
+            }
+            if e.id != id {
+                *e = Ent { id, lo: 1, hi: 0, val: 0, singles: 0, skip: 0 };
+            }
+            let v = oracle(x);
+            if e.skip > 0 {
+                // a stretch where every input has its own result (e.g. integers above 2^27): no search
+                e.skip -= 1;
+                return (v, false);
+            }
+            // end of the sign's pattern range
+            let end: u32 = if x < 0x8000_0000 { 0x7fff_ffff } else { 0xffff_ffff };
+            // gallop
+            let mut good = x; // oracle(good) == v
+            let mut step: u32 = 1;
+            let mut bad: Option<u32> = None;
+            loop {
+                let probe = match good.checked_add(step) {
+                    Some(p) if p <= end => p,
+                    _ => {
+                        if good == end {
+                            break;
+                        }
+                        end
+                    }
+                };
+                if oracle(probe) == v {
+                    good = probe;
+                    if probe == end {
+                        break;
+                    }
+                    step = step.saturating_mul(2);
+                } else {
+                    bad = Some(probe);
+                    break;
+                }
+            }
+            if let Some(mut b) = bad {
+                // bisect (good, b)
+                while b - good > 1 {
+                    let mid = good + (b - good) / 2;
+                    if oracle(mid) == v {
+                        good = mid;
+                    } else {
+                        b = mid;
+                    }
+                }
+            }
+            e.lo = x;
+            e.hi = good;
+            e.val = v;
+            if good == x {
+                e.singles += 1;
+                if e.singles >= 4 {
+                    e.skip = 256;
+                    e.singles = 0;
+                }
+            } else {
+                e.singles = 0;
+            }
+            (v, good > x)
+        })
+    }
+}
